@@ -156,6 +156,11 @@ async def examine_message(cx, s, uid, seq, info, how, mbox):
         check_from_name_roundtrip(cx, d4.get("ENVELOPE"), info, tag)
     await s.cmd(f"UID FETCH {uid} (BODY.PEEK[1] BODY.PEEK[1.MIME] BODY.PEEK[HEADER.FIELDS (Subject X-CID)] BODY.PEEK[HEADER.FIELDS.NOT (Subject To)])")
     await s.cmd(f"UID FETCH {uid} (BODY.PEEK[2] BODY.PEEK[2.HEADER] BODY.PEEK[1.1] BODY.PEEK[2.TEXT])")
+    # header field names that are not atoms (only expressible as quoted strings or literals): the item
+    # echoed in the response must still be well-formed (the strict parser validates the section spec)
+    await s.cmd(f'UID FETCH {uid} (BODY.PEEK[HEADER.FIELDS ("a)b" "sub ject" "x\\"y" Subject)] BODY.PEEK[HEADER.FIELDS.NOT ("(" "]" "%*")])')
+    await s.cmd(f"UID FETCH {uid} (BODY.PEEK[HEADER.FIELDS (".encode() + b"{5+}\r\nab\r\nc {1+}\r\n\\ Subject)])")
+    cx.inc("hostile_header_name_fetches", 2)
     for macro in ("FAST", "ALL", "FULL"):
         await s.cmd(f"FETCH {seq} {macro}")
     cx.inc("messages_examined")
